@@ -243,6 +243,7 @@ Lemma estimate_skeleton_ok :
    "xstar, optimization_messages, convergence = output";
    "self.convergence = convergence";
    "f_g_h_b: BiogemeFunctionOutput = self.calculate_likelihood_and_derivatives(xstar, scaled=False, hessian=True, bhhh=True)";
+   "if run_bootstrap: <bootstrap block>";
    "raw_results = res.RawResults(self, xstar, f_g_h_b, bootstrap=self.bootstrap_results)";
    "r = res.bioResults(raw_results, identification_threshold=self.identification_threshold)";
    "estimated_betas = r.get_beta_values()";
@@ -574,6 +575,102 @@ Proof.
   destruct si; [|reflexivity]. destruct saved as [d|]; [|reflexivity].
   cbn. apply overlay_nth; assumption.
 Qed.
+
+(* ================================================================== bootstrap: the results are those of the estimation itself *)
+Lemma fold_optimize_effect_inert : forall writes outs c,
+  existsb (String.eqb "self.convergence") writes = false -> fold_left (optimize_effect writes) outs c = c.
+Proof.
+  intros writes outs c H. induction outs as [|o outs IH]; cbn; [reflexivity|].
+  unfold optimize_effect at 2. rewrite H. exact IH.
+Qed.
+
+Lemma optimize_records_nothing : optimize_attribute_stores = [].
+Proof. reflexivity. Qed.
+
+Section Boot.
+  Variable L : vec -> R.
+  Variable gradL : vec -> vec.
+  Variables hessL bhhhL junk_h junk_b : vec -> mat.
+  Variable N : R.
+  Variable P : Type.
+  Variable ext : string -> P -> objective -> vec -> option (list bound) -> opt_result.
+
+  Definition est_boot := estimate_bootstrap L gradL hessL bhhhL junk_h junk_b N negative_likelihood algorithms wrappers
+                                            algorithm_name P ext.
+
+  (* with optimize() as it is in the source (it assigns no attribute), whatever the re-estimations return: *)
+  Lemma bootstrap_keeps_main : forall alg p si saved samples s r boots s',
+    est_boot optimize_attribute_stores alg p si saved samples s = Some (r, boots, s') ->
+    est L gradL hessL bhhhL junk_h junk_b N P ext alg p si saved s = Some (r, s') /\
+    exists rt fb, routine alg = Some (rt, fb) /\
+      boots = map (fun o => solution (ext rt p o (r_betaValues r) (if fb then Some (r_bounds r) else None))) samples.
+  Proof.
+    intros alg p si saved samples s r boots s' E. unfold est_boot, estimate_bootstrap in E. fold (routine alg) in E.
+    unfold est.
+    destruct (estimate L gradL hessL bhhhL junk_h junk_b N negative_likelihood algorithms wrappers algorithm_name P ext
+                       alg p si saved s) as [[r0 s0]|]; [|discriminate].
+    destruct (routine alg) as [[rt fb]|] eqn:R; [|discriminate].
+    rewrite fold_optimize_effect_inert in E by reflexivity.
+    assert (set_convergence r0 (r_convergence r0) = r0) as S0 by (destruct r0; reflexivity).
+    rewrite S0, map_map in E. injection E as <- <- <-. split; [reflexivity|]. exists rt, fb. split; reflexivity.
+  Qed.
+End Boot.
+
+(* if optimize() recorded the convergence status itself, the reported status would be the one of the last re-estimation *)
+Lemma bootstrap_overwrites_refuted :
+  exists (ext : string -> unit -> objective -> vec -> option (list bound) -> opt_result) s sample r boots s' r0 s0,
+    est (fun _ => 0) (fun _ => []) (fun _ => []) (fun _ => []) (fun _ => []) (fun _ => []) 1 unit ext
+        "simple_bounds" tt false None s = Some (r0, s0) /\
+    est_boot (fun _ => 0) (fun _ => []) (fun _ => []) (fun _ => []) (fun _ => []) (fun _ => []) 1 unit ext
+        ["self.convergence"%string] "simple_bounds" tt false None [sample] s = Some (r, boots, s') /\
+    r_convergence r0 = false /\ r_convergence r = true.
+Proof.
+  exists (fun _ _ _ x0 _ => match x0 with
+                            | [a] => if Req_EM_T a 0 then mkOpt [1/2] false else mkOpt [1/2] true
+                            | _ => mkOpt [] false end).
+  exists (mkState [] (mkIdm ["b"%string] [0] [(None, None)])).
+  exists (mkObj (fun _ => None) (fun _ => None) (fun _ => None)).
+  unfold est_boot, estimate_bootstrap, est, estimate, optimize. cbn zeta.
+  replace (routine_of algorithms wrappers algorithm_name "simple_bounds")
+    with (Some ("biogeme_optimization.simple_bounds.simple_bounds_newton_algorithm"%string, true)) by (vm_compute; reflexivity).
+  cbn. destruct (Req_EM_T 0 0) as [_|E]; [|exfalso; apply E; reflexivity]. cbn.
+  destruct (Req_EM_T (1/2) 0) as [E|_]; [lra|]. cbn.
+  repeat eexists.
+Qed.
+
+(* ================================================================== the arrays of second derivatives *)
+Lemma evals_fresh_preserves : forall ms st a, (a < List.length st)%nat -> read (evals true st ms) a = read st a.
+Proof.
+  induction ms as [|m ms IH]; intros st a H; [reflexivity|].
+  change (evals true st (m :: ms)) with (evals true (st ++ [m])%list ms).
+  rewrite IH by (rewrite app_length; lia).
+  unfold read. apply app_nth1. exact H.
+Qed.
+
+Lemma stored_result_stable : forall st m ms,
+  read (evals true (fst (eval_into true st m)) ms) (snd (eval_into true st m)) = m.
+Proof.
+  intros st m ms. change (eval_into true st m) with ((st ++ [m])%list, List.length st). cbn [fst snd].
+  rewrite evals_fresh_preserves by (rewrite app_length; cbn; lia).
+  unfold read. rewrite app_nth2 by lia. rewrite Nat.sub_diag. reflexivity.
+Qed.
+
+Lemma shared_buffer_refuted : exists st m ms,
+  read (evals false (fst (eval_into false st m)) ms) (snd (eval_into false st m)) <> m.
+Proof.
+  exists [], [[1]], [[[2]]]. cbn. intros H. injection H as H. lra.
+Qed.
+
+(* with the allocation found in the source on this run *)
+Lemma generated_buffers_stable : forall st m ms,
+  read (evals derivative_buffers_fresh (fst (eval_into derivative_buffers_fresh st m)) ms)
+       (snd (eval_into derivative_buffers_fresh st m)) = m.
+Proof. exact stored_result_stable. Qed.
+
+Lemma bootstrap_skeleton_ok :
+  bootstrap_skeleton = ["for b in range(self.bootstrap_samples):"; "x_br, _, _ = self.optimize(xstar)";
+                        "self.bootstrap_results[b] = x_br"]%string.
+Proof. reflexivity. Qed.
 
 (* ================================================================== objects used by the non-vacuity examples of Properties/C07.v *)
 Definition ex_ext : string -> unit -> objective -> vec -> option (list bound) -> opt_result :=
